@@ -284,6 +284,7 @@ func init() {
 		// --- iwrapper.go Get: `== 0` sentinels
 		fi := parseFile("pkg/partition/iwrapper.go")
 		minSent, maxSent := false, false
+		flagTests, flagSet := 0, false
 		if fd := funcDecl(fi, "iwrapper", "Get"); fd != nil {
 			ast.Inspect(fd.Body, func(n ast.Node) bool {
 				be, ok := n.(*ast.BinaryExpr)
@@ -303,8 +304,33 @@ func init() {
 				}
 				return true
 			})
+			// the flag-based shape (fix 6624754): `!iw.tsSet` in the conditions and `iw.tsSet = true` afterwards
+			ast.Inspect(fd.Body, func(n ast.Node) bool {
+				switch x := n.(type) {
+				case *ast.UnaryExpr:
+					if se, ok := x.X.(*ast.SelectorExpr); ok && x.Op == token.NOT && se.Sel.Name == "tsSet" {
+						flagTests++
+					}
+				case *ast.AssignStmt:
+					if len(x.Lhs) == 1 && len(x.Rhs) == 1 {
+						if se, ok := x.Lhs[0].(*ast.SelectorExpr); ok && se.Sel.Name == "tsSet" {
+							if id, ok := x.Rhs[0].(*ast.Ident); ok && id.Name == "true" {
+								flagSet = true
+							}
+						}
+					}
+				}
+				return true
+			})
 		} else {
 			problem("iwrapper.Get not found")
+		}
+		seenFlag := flagTests >= 2 && flagSet
+		if !seenFlag && !(minSent && maxSent) {
+			problem("iwrapper.Get: neither the 0 sentinels nor the seen-flag shape (`!iw.tsSet` twice, `iw.tsSet = true`) recognised: the model of the running min/max no longer follows the code")
+		}
+		if seenFlag && (minSent || maxSent) {
+			problem("iwrapper.Get: mixes the seen flag with a 0 sentinel")
 		}
 
 		l.p("/-- `sparseSpace`: a point is written when at least this many records arrived since the last one -/")
@@ -332,6 +358,8 @@ func init() {
 		l.p("/-- `iwrapper.Get` uses `== 0` as \"unset\" for minTs / maxTs -/")
 		l.p("def iwrapperMinZeroSentinel : Bool := %s", leanBool(minSent))
 		l.p("def iwrapperMaxZeroSentinel : Bool := %s", leanBool(maxSent))
+		l.p("/-- `iwrapper.Get` keeps a flag saying whether a timestamp has been seen (`!iw.tsSet` guards both updates, set after them) -/")
+		l.p("def iwrapperSeenFlag : Bool := %s", leanBool(seenFlag))
 		l.write()
 	}
 }
